@@ -23,13 +23,21 @@ def make_ctx(sys_, ins, outs, model, **kw):
 
 
 def explore_product(build, max_states=200000, validate_every=1, stop_on_first=True,
-                    compare_pre_edge=True, extra_inputs_filter=None):
+                    compare_pre_edge=True, extra_inputs_filter=None, corner=False, max_depth=None):
     """Returns the finished Explorer. build() -> ctx from make_ctx."""
 
-    def inputs(c):
+    def all_vectors(c):
         widths = [w.getWidth() for w in c.free]
+        if not corner:
+            return core.vectors(widths)
+        import itertools
+        from . import comb
+        # wide ports: boundary values only (ports of <= 6 bits keep their full range)
+        return itertools.product(*[comb.corner_values(w)[::2] + comb.corner_values(w)[-1:] if w > 6 else range(1 << w) for w in widths])
+
+    def inputs(c):
         started, s = c.ms
-        for x in core.vectors(widths):
+        for x in all_vectors(c):
             xd = dict(zip(c.in_names, x))
             if not c.model.enabled(s, xd):
                 c.pruned = getattr(c, 'pruned', 0) + 1
@@ -71,7 +79,7 @@ def explore_product(build, max_states=200000, validate_every=1, stop_on_first=Tr
     ex = core.Explorer(build, inputs, check, step=step,
                        extra_state=lambda c: c.ms,
                        set_extra=lambda c, e: setattr(c, 'ms', e),
-                       max_states=max_states, validate_every=validate_every)
+                       max_states=max_states, validate_every=validate_every, max_depth=max_depth)
     ex.run(stop_on_first=stop_on_first)
     return ex
 
